@@ -1,4 +1,6 @@
 import PRV.Model.Seller
+import PRV.Model.WatcherStop
+import PRV.Gen.C08
 /-
 C08 — Seller contracts are fulfilled exactly while they run on chain, across restarts.
 Theorems about `Model/Seller.lean`, for every controller state, chain state and instant.
@@ -254,5 +256,34 @@ example :
     fulfilling c = some "poolx" ∧ c.terms.speed = 1000 ∧ allocates c 160 ∧
     fulfilling c' = some "pooly" ∧ c'.terms.speed = 2000 ∧ c'.terms.len = 600 := by
   refine ⟨by decide, by decide, ⟨100, by decide, by decide, by decide⟩, by decide, by decide, by decide⟩
+
+
+/-! ### the stopping watcher against the handler that waited for it (regenerated order, every interleaving) -/
+
+section watcherStop
+open PRV.Model.WatcherStop
+
+/-- the goroutine clears the running flag before it closes the done channel (the channel of *its* run, captured before the
+goroutine started), and `SetTerms` refuses while the flag is set -/
+theorem source_flag_cleared_before_done :
+    goroutineOf PRV.Gen.C08.startGoroutine = [.clearFlag, .closeDone] ∧
+    PRV.Gen.C08.startBefore.getLast? = some "doneCh := p.doneCh" ∧
+    PRV.Gen.C08.setTerms = ["if p.isRunning { return }", "p.Terms = terms"] := by decide
+
+/-- **in the code's order every interleaving with a handler that waited for `Done()` ends well**: the new terms are
+accepted, the new watcher runs with them and its flag is set — over the regenerated statement order -/
+theorem restart_after_done_is_clean :
+    ∀ tr ∈ merges (goroutineOf PRV.Gen.C08.startGoroutine) handler, valid tr = true → good (run tr) = true := by decide
+
+/-- with the two statements the other way round (as before `833ac43`) some interleaving loses the update: the new terms are
+refused, or the old goroutine clears the flag of the new watcher, which can then not be stopped -/
+theorem done_before_flag_loses_an_update :
+    ∃ tr ∈ merges [.closeDone, .clearFlag] handler, valid tr = true ∧ good (run tr) = false := by decide
+
+-- the enumeration is the full one: C(4,2) = 6 interleavings, of which one respects the wait in the code's order and three the other way round
+example : (merges [.clearFlag, .closeDone] handler).length = 6 ∧ ((merges [.clearFlag, .closeDone] handler).filter valid).length = 1 ∧
+    ((merges [.closeDone, .clearFlag] handler).filter valid).length = 3 := by decide
+
+end watcherStop
 
 end PRV.Props.C08
